@@ -255,6 +255,32 @@ func waitingForOwn(l *loopInst) bool {
 }
 
 func init() {
+	// prop.c16.once <id>: a run-once loop ends by itself, without error, and not before it has
+	// merged the newest snapshot every other instance had in the bucket when it started
+	implOps["prop.c16.once"] = func(a []string) string {
+		l := loops[a[0]]
+		if l == nil {
+			return "bad-op"
+		}
+		if !l.exited {
+			return "ok running"
+		}
+		if l.at != "exit ok" {
+			return "ok exited err"
+		}
+		lb := l.s.VerifLastByInstance()
+		var miss []string
+		for inst, ts := range l.startNewest {
+			if lb[inst].Before(ts) {
+				miss = append(miss, inst)
+			}
+		}
+		if len(miss) > 0 {
+			sort.Strings(miss)
+			return "FAIL run-once-ended-before-merging-the-newest-snapshot-of " + strings.Join(miss, ",")
+		}
+		return "ok exited ok"
+	}
 	implOps["prop.loop.check"] = func(a []string) string {
 		l := loops[a[0]]
 		if l == nil {
